@@ -333,6 +333,8 @@ fn run_case(line: &str) -> String {
         let name = op.head().to_string();
         let a = op.args();
         out.push_str(&format!(" (op {})", opi));
+        let before_len = out.len();
+        let r = std::panic::catch_unwind(std::panic::AssertUnwindSafe(|| {
         match name.as_str() {
             "local" => {
                 ctx.local = true;
@@ -451,6 +453,13 @@ fn run_case(line: &str) -> String {
             }
             other => panic!("unknown op {}", other),
         };
+        }));
+        if r.is_err() {
+            // a panic inside the real code: keep what the earlier ops produced, report where and why
+            out.truncate(before_len);
+            out.push_str(&format!(" (panic \"{}\" \"{}\"))", qvh::last_panic(), last_message().replace('"', "'")));
+            return out;
+        }
     }
     // refcount invariant of the real heap at the end of the history (debug builds): a leak here is
     // C06's business, reported as information only.
@@ -594,8 +603,32 @@ mod envmode {
     }
 }
 
-fn main() {
+thread_local! {
+    static LAST_MESSAGE: std::cell::RefCell<String> = const { std::cell::RefCell::new(String::new()) };
+}
+
+fn last_message() -> String {
+    LAST_MESSAGE.with(|m| m.borrow().clone())
+}
+
+/// like qvh::quiet_panics, but also keeps the panic message (first 160 chars)
+fn install_hook() {
     qvh::quiet_panics();
+    let prev = std::panic::take_hook();
+    std::panic::set_hook(Box::new(move |info| {
+        let msg = info
+            .payload()
+            .downcast_ref::<String>()
+            .cloned()
+            .or_else(|| info.payload().downcast_ref::<&str>().map(|s| s.to_string()))
+            .unwrap_or_default();
+        LAST_MESSAGE.with(|m| *m.borrow_mut() = msg.chars().take(160).collect::<String>().replace('\n', " "));
+        prev(info);
+    }));
+}
+
+fn main() {
+    install_hook();
     if std::env::args().any(|a| a == "--env") {
         for line in qvh::stdin_cases() {
             let l = line.clone();
